@@ -1719,6 +1719,11 @@ impl HnswBackend {
                     );
                 }
 
+                // Refuse input the index would reject before anything is logged: a WAL
+                // insert record followed by a compensating delete would erase the
+                // previous version of this document on replay.
+                index.validate_embedding(&embedding)?;
+
                 let old_internal_id = store.external_to_internal.get(&doc_id).copied();
                 let old_metadata = old_internal_id.map(|id| store.metadata[id].clone());
                 // Coherence versions only track replacement of the currently
